@@ -1,4 +1,5 @@
 import PewProofs.ConvolveReal
+import PewProofs.ConvolveExt
 
 /-! # C18 — property theorems (the provable, exact-arithmetic part; see the header of
 `PewModel/Convolve.lean` for what is *not* proved) -/
@@ -1036,5 +1037,302 @@ example : gammaApprox 5 = 24 := by
 
 example : erfApprox 1 = 1 - 1 / (1 + 587862 / 1000000) ^ 4 := by
   norm_num [erfApprox, sgn, absR, erfSum]
+
+/-! ## extension round: pad mode entry by entry, normalisation under rounding and rescaling, factors -/
+
+/-- THE WHOLE pad-mode result, edges included, for every kernel length (also kernels longer than the signal):
+entry `k` is `Σ_j psf[j] · x[clamp(k + (m − 1 − m/2) − j)]`, the ordinary convolution with the signal continued
+by its first and last sample -/
+theorem pad_conv_entry (x psf : List Rat) (hx : x ≠ []) (hp : psf ≠ []) (k : Nat) (hk : k < x.length) :
+    at0 (convolvePad x psf) k = padConvAt x psf k := by
+  have hm : 0 < psf.length := List.length_pos_iff.mpr hp
+  unfold convolvePad convValid
+  simp only [padEdge_length]
+  rw [if_neg (by omega)]
+  unfold convValidGe
+  simp only [padEdge_length]
+  rw [at0_of_lt _ _ (by simp; omega)]
+  simp only [List.getElem_map, List.getElem_range]
+  unfold padConvAt
+  congr 1
+  apply List.map_congr_left
+  intro j hj
+  have hj' : j < psf.length := List.mem_range.mp hj
+  rw [padEdge_at x hx _ _ _ (by omega)]
+  congr 3
+  omega
+
+theorem pad_conv_eq_spec (x psf : List Rat) (hx : x ≠ []) (hp : psf ≠ []) :
+    convolvePad x psf = padConvSpec x psf := by
+  have hm : 0 < psf.length := List.length_pos_iff.mpr hp
+  have hn : 0 < x.length := List.length_pos_iff.mpr hx
+  have hl : (convolvePad x psf).length = x.length := by
+    unfold convolvePad convValid
+    simp only [padEdge_length]
+    rw [if_neg (by omega)]
+    simp [convValidGe, padEdge_length]
+    omega
+  apply List.ext_getElem
+  · rw [hl]; simp [padConvSpec]
+  · intro k h1 h2
+    have hk : k < x.length := by rw [hl] at h1; exact h1
+    rw [← at0_of_lt _ _ h1, pad_conv_entry x psf hx hp k hk]
+    simp [padConvSpec]
+
+/-- a kernel longer than the signal: nothing special happens -/
+example : convolvePad [1, 2] [1, 1, 1, 1, 1] = [7, 8] := by decide +kernel
+example : padConvSpec [1, 2] [1, 1, 1, 1, 1] = [7, 8] := by decide +kernel
+
+/-- a constant signal comes back multiplied by the sum of the kernel, edges included, whatever that sum is
+(`pad_conv_constant` is the case `Σ psf = 1`; a kernel whose float weights sum to one only up to rounding
+reproduces constants up to the same rounding) -/
+theorem pad_conv_constant_scaled (c : Rat) (n : Nat) (hn : 0 < n) (psf : List Rat) (hp : psf ≠ []) :
+    convolvePad (List.replicate n c) psf = List.replicate n (c * psf.sum) := by
+  rw [pad_conv_eq_spec _ _ (by intro h; have := congrArg List.length h; simp at this; omega) hp]
+  unfold padConvSpec
+  simp only [List.length_replicate]
+  apply List.ext_getElem
+  · simp
+  · intro k h1 h2
+    simp only [List.getElem_map, List.getElem_range, List.getElem_replicate]
+    have hk : k < n := by simpa using h1
+    unfold padConvAt
+    simp only [List.length_replicate]
+    have : (List.range psf.length).map (fun j => at0 psf j * at0 (List.replicate n c)
+          (clampIdx n ((k : Int) + ((psf.length - 1 - psf.length / 2 : Nat) : Int) - (j : Int))))
+        = (List.range psf.length).map (fun j => at0 psf j * c) := by
+      apply List.map_congr_left
+      intro j _
+      rw [at0_replicate _ _ _ (by unfold clampIdx; split; omega; split <;> omega)]
+    rw [this, List.sum_map_mul_right, sum_at0_range, mul_comm]
+
+example : convolvePad [4, 4, 4] [1 / 2, 1 / 4] = [3, 3, 3] := by
+  have := pad_conv_constant_scaled 4 3 (by norm_num) [1 / 2, 1 / 4] (by simp)
+  norm_num [List.replicate] at this
+  exact this
+
+/-! ### normalisation: invariant under the magnitude of the densities, stable under rounding -/
+
+/-- the weights do not depend on the magnitude of the densities: multiplying every density by the same non-zero
+constant (`1e-310` as well as `1e+300`) changes nothing.  Any field. -/
+theorem normaliseK_scale {K : Type} [Field K] (c : K) (hc : c ≠ 0) (y : List K) :
+    normaliseK (y.map (c * ·)) = normaliseK y := by
+  unfold normaliseK
+  have hs : (y.map (c * ·)).sum = c * y.sum := by
+    have := List.sum_map_mul_left y (fun v => v) c
+    simpa using this
+  rw [hs, List.map_map]
+  apply List.map_congr_left
+  intro v _
+  simp only [Function.comp]
+  exact mul_div_mul_left _ _ hc
+
+/-- … so a generator's rows do not depend on a constant factor of its density (the `1/B` of `beta_pdf`, the
+`1/(σ√(2π))` of the Gaussians, `βᵅ/Γ(α)`) -/
+theorem kernelWith_scale {K : Type} [Field K] (c : K) (hc : c ≠ 0) (axis : List Rat) (pdf : Rat → K) :
+    kernelWith axis (fun x => c * pdf x) = kernelWith axis pdf := by
+  unfold kernelWith
+  have : axis.map (fun x => c * pdf x) = (axis.map pdf).map (c * ·) := by simp [List.map_map, Function.comp_def]
+  rw [this, normaliseK_scale c hc]
+
+example : normaliseK (([1, 3] : List Rat).map ((1 / 10 ^ 320) * ·)) = normaliseK [1, 3] :=
+  normaliseK_scale _ (by positivity) _
+
+/-- REGRESSION (seeded change C18-c2): with the divisor floored at `t`, densities whose sum is positive but below
+`t` give weights that sum to `Σy / t < 1`, not to one -/
+theorem normaliseFloor_sum (t : Rat) (y : List Rat) (h : y.sum < t) :
+    (normaliseFloor t y).sum = y.sum / t := by
+  unfold normaliseFloor
+  rw [if_pos h, sum_map_div]
+
+theorem normaliseFloor_lt_one (t : Rat) (y : List Rat) (h0 : 0 < y.sum) (h : y.sum < t) :
+    (normaliseFloor t y).sum < 1 := by
+  rw [normaliseFloor_sum t y h, div_lt_one (lt_trans h0 h)]
+  exact h
+
+/-- … and above the floor it is the code's normalisation -/
+theorem normaliseFloor_eq (t : Rat) (y : List Rat) (h : t ≤ y.sum) : normaliseFloor t y = normalise y := by
+  unfold normaliseFloor normalise
+  rw [if_neg (not_lt.mpr h)]
+
+/-- `normal(5, 1.0, 41.0)`: one sample carries 11 steps of the subnormal grid, the floor is `2⁻¹⁰²²` = `2⁵²` steps -/
+example (q : Rat) (hq : 0 < q) : (normaliseFloor (2 ^ 52 * q) [0, 0, 0, 0, 11 * q]).sum = 11 / 2 ^ 52 := by
+  rw [normaliseFloor_sum _ _ (by norm_num; nlinarith)]
+  field_simp
+  norm_num
+example (q : Rat) (hq : 0 < q) : (normalise [0, 0, 0, 0, 11 * q]).sum = 1 :=
+  (normalise_sums_to_one _ (by intro v hv; simp at hv; rcases hv with rfl | rfl <;> positivity)
+    (by norm_num; positivity)).2.1
+
+/-- NORMALISATION UNDER ROUNDING, in any ordered field and for densities of ANY magnitude: if the divisor `s` is
+the sum of the densities up to a relative error `ε < 1` and every weight is the quotient `yᵢ / s` up to a relative
+error `u`, the weights sum to one within `(u + ε) / (1 − ε)`.  Nothing in the bound depends on how small the
+densities are.  (binary64: `u = 2⁻⁵³` for a division, `ε ≤ (n − 1)·2⁻⁵³` for any order of summation, `ε = 0` when
+all densities are subnormal — sums of subnormal numbers are exact.) -/
+theorem normalise_approx {K : Type} [Field K] [LinearOrder K] [IsStrictOrderedRing K]
+    (y w : List K) (s u ε : K) (hS : 0 < y.sum) (hu : 0 ≤ u) (hε : ε < 1)
+    (hs : |s - y.sum| ≤ ε * y.sum)
+    (hw : List.Forall₂ (fun wi yi => |wi - yi / s| ≤ u * (yi / s)) w y) :
+    |w.sum - 1| ≤ (u + ε) / (1 - ε) := by
+  have h1ε : 0 < 1 - ε := by linarith
+  have hspos : 0 < s := by
+    have := (abs_le.mp hs).1
+    nlinarith
+  have hsge : (1 - ε) * y.sum ≤ s := by
+    have := (abs_le.mp hs).1
+    nlinarith
+  -- the exact quotients sum to S / s
+  have hq : (y.map (· / s)).sum = y.sum / s := sum_map_div_field y s
+  have hw' : List.Forall₂ (fun wi vi => |wi - vi| ≤ u * vi) w (y.map (· / s)) := by
+    rw [List.forall₂_map_right_iff]; exact hw
+  have h1 : |w.sum - y.sum / s| ≤ u * (y.sum / s) := by
+    rw [← hq]; exact abs_sum_sub_sum_le u w _ hw'
+  have hr : y.sum / s ≤ 1 / (1 - ε) := by
+    rw [div_le_div_iff₀ hspos h1ε]; linarith
+  have h2 : |y.sum / s - 1| ≤ ε / (1 - ε) := by
+    have e : y.sum / s - 1 = (y.sum - s) / s := by field_simp
+    rw [e, abs_div, abs_of_pos hspos, div_le_div_iff₀ hspos h1ε]
+    have : |y.sum - s| ≤ ε * y.sum := by rw [abs_sub_comm]; exact hs
+    have hεS : 0 ≤ ε * y.sum := le_trans (abs_nonneg _) this
+    calc |y.sum - s| * (1 - ε) ≤ (ε * y.sum) * (1 - ε) := mul_le_mul_of_nonneg_right this h1ε.le
+      _ = ε * ((1 - ε) * y.sum) := by ring
+      _ ≤ ε * s := by
+        by_cases hε0 : 0 ≤ ε
+        · exact mul_le_mul_of_nonneg_left hsge hε0
+        · exfalso; have : ε * y.sum < 0 := mul_neg_of_neg_of_pos (not_le.mp hε0) hS; linarith
+  have e : w.sum - 1 = (w.sum - y.sum / s) + (y.sum / s - 1) := by ring
+  rw [e]
+  refine (abs_add_le _ _).trans ?_
+  have : u * (y.sum / s) ≤ u / (1 - ε) := by
+    calc u * (y.sum / s) ≤ u * (1 / (1 - ε)) := mul_le_mul_of_nonneg_left hr hu
+      _ = u / (1 - ε) := by ring
+  rw [add_div]
+  linarith
+
+/-- three densities of the order of `10⁻³¹⁰`, a divisor 1 % high, weights 1 % off: the sum is within 3 % of one -/
+example : |([(1 : Rat) / 2, 3 / 10, 2 / 10].map (· * (101 / 100) / (101 / 100))).sum - 1| ≤ 1 := by norm_num
+
+/-! ### the factors of the eight densities -/
+
+section factors
+variable {K : Type} [Field K] {S : Special K}
+
+theorem exponential_factors_prod (lam x : Rat) : exponentialPdf S lam x = (exponentialFactors S lam x).prod := by
+  simp [exponentialPdf, exponentialFactors]
+
+theorem laplace_factors_prod (b mu x : Rat) : laplacePdf S b mu x = (laplaceFactors S b mu x).prod := by
+  simp [laplacePdf, laplaceFactors]
+
+theorem normal_factors_prod (sigma mu x : Rat) : normalPdf S sigma mu x = (normalFactors S sigma mu x).prod := by
+  simp [normalPdf, normalFactors]
+
+theorem superGaussian_factors_prod (sigma mu : Rat) (power : Nat) (x : Rat) :
+    superGaussianPdf S sigma mu power x = (superGaussianFactors S sigma mu power x).prod := by
+  simp [superGaussianPdf, superGaussianFactors]
+
+theorem lognormal_factors_prod (sigma mu x : Rat) : lognormalPdf S sigma mu x = (lognormalFactors S sigma mu x).prod := by
+  simp [lognormalPdf, lognormalFactors]
+
+theorem loglaplace_factors_prod (b mu x : Rat) : loglaplacePdf S b mu x = (loglaplaceFactors S b mu x).prod := by
+  simp [loglaplacePdf, loglaplaceFactors]
+
+theorem inversegamma_factors_prod (alpha beta x : Rat) :
+    inversegammaPdf S alpha beta x = (inversegammaFactors S alpha beta x).prod := by
+  simp [inversegammaPdf, inversegammaFactors, mul_assoc]
+
+theorem beta_factors_prod [LinearOrder K] [IsStrictOrderedRing K] (hS : S.Sound) (alpha beta x : Rat) :
+    betaPdf S alpha beta x = (betaFactors S alpha beta x).prod := by
+  simp only [betaPdf, betaFactors, List.prod_cons, List.prod_nil, mul_one]
+  rw [hS.cast 1, Rat.cast_one, div_eq_mul_inv, one_div, mul_assoc]
+
+end factors
+
+/-- WHATEVER ORDER the factors are multiplied in: when `robustFactors` holds, the product of every sub-collection
+of the factors (any sub-multiset, in any order) lies in `[8·2⁻¹⁰⁷⁴, 2¹⁰⁰⁰]` — every intermediate value of the
+evaluation is a positive finite double with room to spare, and so is the density itself -/
+theorem robustFactors_spec (fs l : List Rat) (hr : robustFactors fs = true) (hl : l.Subperm fs) :
+    tailLo ≤ l.prod ∧ l.prod ≤ tailHi := by
+  obtain ⟨l', hperm, hsub⟩ := hl
+  have hmem := prod_mem_subProducts l' fs hsub
+  rw [hperm.prod_eq] at hmem
+  unfold robustFactors at hr
+  rw [List.all_eq_true] at hr
+  have := hr _ hmem
+  simpa using this
+
+theorem robustFactors_pos (fs : List Rat) (hr : robustFactors fs = true) : 0 < fs.prod :=
+  lt_of_lt_of_le (by unfold tailLo; positivity) (robustFactors_spec fs fs hr (List.Subperm.refl fs)).1
+
+example : robustFactors [1 / 2, 4 * tailLo] = true := by decide +kernel
+example : robustFactors [50, tailLo / 64] = false := by decide +kernel
+
+/-! ### numpy's own modes as windows of the ordinary convolution; commutativity -/
+
+/-- numpy's `valid` mode (what pad mode runs on the padded signal) is a window of the ordinary convolution:
+entry `k` is entry `k + m − 1` of the full convolution, for every `k ≤ n − m` -/
+theorem convValidGe_entry (a v : List Rat) (hv : v ≠ []) (k : Nat) (hk : k + v.length ≤ a.length) :
+    at0 (convValidGe a v) k = fullConvAt a v (k + v.length - 1) := by
+  have hm : 0 < v.length := List.length_pos_iff.mpr hv
+  unfold convValidGe
+  rw [at0_of_lt _ _ (by simp; omega)]
+  simp only [List.getElem_map, List.getElem_range]
+  unfold fullConvAt
+  congr 1
+  apply List.map_congr_left
+  intro j hj
+  have hj' : j < v.length := List.mem_range.mp hj
+  rw [if_pos (by omega)]
+
+theorem convValidGe_eq_full (a v : List Rat) (hv : v ≠ []) (h : v.length ≤ a.length) :
+    convValidGe a v = ((fullConv a v).drop (v.length - 1)).take (a.length + 1 - v.length) := by
+  have hm : 0 < v.length := List.length_pos_iff.mpr hv
+  apply List.ext_getElem
+  · simp [convValidGe, fullConv]; omega
+  · intro k h1 h2
+    have hk : k < a.length + 1 - v.length := by simpa [convValidGe] using h1
+    rw [← at0_of_lt _ _ h1, convValidGe_entry a v hv k (by omega)]
+    simp only [List.getElem_take, List.getElem_drop, fullConv, List.getElem_map, List.getElem_range]
+    congr 1; omega
+
+example : convValidGe [1, 2, 3, 4] [1, 1] = [3, 5, 7] := by decide +kernel
+example : fullConv [1, 2, 3, 4] [1, 1] = [1, 3, 5, 7, 4] := by decide +kernel
+
+/-- convolution is commutative: signal and kernel may be exchanged (what numpy does when the second argument is
+the longer one) -/
+theorem fullConvAt_comm (x psf : List Rat) (t : Nat) : fullConvAt x psf t = fullConvAt psf x t := by
+  rw [fullConvAt_eq_range, fullConvAt_eq_range]
+  have := sum_range_reflect_list (fun j => at0 x j * at0 psf (t - j)) (t + 1)
+  rw [← this]
+  congr 1
+  apply List.map_congr_left
+  intro j hj
+  have hj' : j < t + 1 := List.mem_range.mp hj
+  have e : t + 1 - 1 - j = t - j := by omega
+  have e2 : t - (t - j) = j := by omega
+  simp only [e, e2]
+  ring
+
+theorem fullConv_comm (x psf : List Rat) : fullConv x psf = fullConv psf x := by
+  unfold fullConv
+  rw [Nat.add_comm psf.length x.length]
+  apply List.map_congr_left
+  intro t _
+  exact fullConvAt_comm x psf t
+
+example : fullConv [1, 2, 3] [1, 1] = fullConv [1, 1] [1, 2, 3] := fullConv_comm _ _
+
+/-- numpy's `valid` mode for ANY two non-empty arrays (the longer one is taken as the signal): the window of the
+ordinary convolution in which the shorter array lies completely inside the longer one -/
+theorem convValid_eq_full (a v : List Rat) (ha : a ≠ []) (hv : v ≠ []) :
+    convValid a v = ((fullConv a v).drop (min a.length v.length - 1)).take
+      (max a.length v.length + 1 - min a.length v.length) := by
+  unfold convValid
+  split
+  · rename_i h
+    rw [convValidGe_eq_full v a ha (by omega), fullConv_comm v a, Nat.min_eq_left (by omega), Nat.max_eq_right (by omega)]
+  · rename_i h
+    rw [convValidGe_eq_full a v hv (by omega), Nat.min_eq_right (by omega), Nat.max_eq_left (by omega)]
+
+example : convValid [1, 1] [1, 2, 3, 4] = [3, 5, 7] := by decide +kernel
 
 end Pew.Convolve
